@@ -32,12 +32,19 @@ type symNode struct {
 
 var symTags = []string{
 	"",
+	`json:"nm%d,omitempty"`,
 	`json:"nm%d"`,
 	`json:"-"`,
-	`json:",omitempty"`,
-	`json:"nm%d,omitempty"`,
 	`bq:"-"`,
+	`json:",omitempty"`,
 	`json:"nm%d,string,omitempty" bq:"x"`,
+}
+
+func (r *Run) symParam(name string, def int) int {
+	if v, ok := r.flags[name]; ok {
+		return int(v)
+	}
+	return def
 }
 
 // newSymNodes creates n descriptor nodes with symbolic kinds.
@@ -160,7 +167,7 @@ func (r *Run) symInvoke(n *symNode, method string, args []Value) Value {
 			r.fail("panic", "reflect: NumField of non-struct type", "")
 		}
 		if n.nfields < 0 {
-			n.nfields = r.decide(3, nil)
+			n.nfields = r.decide(r.symParam("sym.maxfields", 2)+1, nil)
 			n.fields = make([]*symField, n.nfields)
 		}
 		return ts.Const(64, uint64(n.nfields))
@@ -169,7 +176,7 @@ func (r *Run) symInvoke(n *symNode, method string, args []Value) Value {
 			r.fail("panic", "reflect: Field of non-struct type", "")
 		}
 		if n.nfields < 0 {
-			n.nfields = r.decide(3, nil)
+			n.nfields = r.decide(r.symParam("sym.maxfields", 2)+1, nil)
 			n.fields = make([]*symField, n.nfields)
 		}
 		i := r.boundedIndex(r.indexTerm(args[0]), int64(n.nfields), "reflect Field index")
@@ -182,11 +189,18 @@ func (r *Run) symInvoke(n *symNode, method string, args []Value) Value {
 			} else {
 				f.name = fmt.Sprintf("f%d", i)
 			}
-			tg := symTags[r.decide(len(symTags), nil)]
-			if len(tg) > 0 && containsVerb(tg) {
-				tg = fmt.Sprintf(tg, i)
+			// unexported fields are skipped before their tag is looked at
+			if f.exported {
+				nt := r.symParam("sym.tags", len(symTags))
+				if nt > len(symTags) {
+					nt = len(symTags)
+				}
+				tg := symTags[r.decide(nt, nil)]
+				if len(tg) > 0 && containsVerb(tg) {
+					tg = fmt.Sprintf(tg, i)
+				}
+				f.tag = tg
 			}
-			f.tag = tg
 			// field type: a fresh node, or (second field) the first field's
 			// node again: the same type in two positions
 			var opts []int
